@@ -1808,3 +1808,289 @@ func defNodes(defs []reachingDef) map[int]bool {
 	}
 	return m
 }
+
+// ---------------------------------------------------------------------------------------------------------------
+// Round 4 (rules added after the third round of independently seeded changes)
+
+// c09ReaderPinsContent (seeded C09-E): a reader handed out by content.Get keeps the content alive because it is an
+// open file: the collector may unlink the file afterwards. The value returned on the success path must therefore
+// be the result of the Open call made in this invocation (helpers spliced in), not a value that opens the file later.
+func c09ReaderPinsContent(p *Prog, r *Report, rule string) {
+	k := "(*internal/repository/content.Repo).Get"
+	fi := p.Func(k)
+	if fi == nil {
+		r.Undecided(rule, k, "", "content.Get not found")
+		return
+	}
+	info := fi.Pkg.TypesInfo
+	f := p.FlatInl(fi)
+	isOpen := func(e ast.Expr) bool {
+		c, ok := ast.Unparen(e).(*ast.CallExpr)
+		return ok && (p.callIs(fi.Pkg, c, "internal/utils/os.Open") || isFunc(info, c, "os", "Open") || isFunc(info, c, "os", "OpenFile"))
+	}
+	n, bad := 0, ""
+	for _, id := range f.ReturnNodes() {
+		rs := f.returnStmt(id)
+		if rs == nil || len(rs.Results) != 2 || !isNilIdent(info, rs.Results[1]) {
+			continue
+		}
+		n++
+		res := rs.Results[0]
+		if isOpen(res) {
+			continue
+		}
+		o := objOf(info, res)
+		if o == nil {
+			bad = p.pos(rs) + ": the reader returned is " + types.ExprString(res)
+			continue
+		}
+		defs := f.ReachingDefs(id, o)
+		if len(defs) == 0 {
+			bad = p.pos(rs) + ": the reader returned has no definition in the function"
+		}
+		for _, d := range defs {
+			if d.Rhs == nil || !isOpen(d.Rhs) {
+				bad = p.pos(f.Nodes[d.Node].Ast) + ": the reader returned is not the file opened by this call"
+			}
+		}
+	}
+	r.Check(bad == "" && n > 0, rule, k+"#returns-the-open-file", p.pos(fi.Decl), "the reader is the open file itself",
+		bad+": a reader handed out no longer pins its content; once the key is overwritten and the collector has removed the file, a permitted read (a GetReader result consumed later, a snapshot read in progress) fails with 'no such file'")
+}
+
+// c10SkipAtEquality (seeded C10-F): after a root failed with F bytes free, store.Set tries only directories with
+// strictly more free space: the guard that skips a directory is true for Free == F. (The sub-directories of the
+// root that just failed report exactly F; trying one of them closes the partially written file of the previous
+// attempt after its first chunk, and the continuation on a root that has room fails.)
+func c10SkipAtEquality(p *Prog, r *Report, rule string) {
+	fi := p.Func(kStoreSet)
+	if fi == nil {
+		return
+	}
+	info := fi.Pkg.TypesInfo
+	f := p.FlatInl(fi)
+	cons := kStoreSet + "#skip-directories-that-are-not-larger"
+	// minSize: the variable that receives dir.Free on the retry path
+	var minObj types.Object
+	for _, n := range f.Nodes {
+		if as, ok := n.Ast.(*ast.AssignStmt); ok && len(as.Lhs) == len(as.Rhs) {
+			for i, rhs := range as.Rhs {
+				if sel, ok := ast.Unparen(rhs).(*ast.SelectorExpr); ok && sel.Sel.Name == "Free" {
+					if o := objOf(info, as.Lhs[i]); o != nil && as.Tok == token.ASSIGN {
+						minObj = o
+					}
+				}
+			}
+		}
+	}
+	if minObj == nil {
+		r.Undecided(rule, cons, p.pos(fi.Decl), "the variable remembering the free space of the failed attempt was not found")
+		return
+	}
+	stores := setOf(f.CallNodes(kContentStore))
+	found := false
+	for _, n := range f.Nodes {
+		if !n.IsCond || !usesObj(info, n.Ast, minObj) {
+			continue
+		}
+		mentionsFree := false
+		ast.Inspect(n.Ast, func(x ast.Node) bool {
+			if sel, ok := x.(*ast.SelectorExpr); ok && sel.Sel.Name == "Free" {
+				mentionsFree = true
+			}
+			return true
+		})
+		if !mentionsFree {
+			continue
+		}
+		found = true
+		env := &Env{P: p, Pkg: fi.Pkg, Vars: map[types.Object]*Val{minObj: intVal(5)}}
+		env.Hook = func(env *Env, e ast.Expr) (*Val, bool) {
+			if sel, ok := e.(*ast.SelectorExpr); ok && sel.Sel.Name == "Free" {
+				return intVal(5), true
+			}
+			return nil, false
+		}
+		v, err := env.Eval(n.Ast.(ast.Expr))
+		if err != nil || v.C == nil {
+			r.Undecided(rule, cons, p.pos(n.Ast), fmt.Sprintf("guard not evaluable: %v", err))
+			return
+		}
+		taken := 2
+		if constant.BoolVal(v.C) {
+			taken = 1
+		}
+		// on the edge taken at equality the content store must not be reachable before the next iteration
+		tries := false
+		for _, e := range n.Succs {
+			if e.Label == taken {
+				reach := f.Reach([]int{e.To}, func(x *GNode) bool { return x.Block != nil && x.Block.Kind.String() == "RangeLoop" && x.Ast == nil }, nil)
+				for id := range reach {
+					if stores[id] {
+						tries = true
+					}
+				}
+			}
+		}
+		r.Check(!tries, rule, cons, p.pos(n.Ast), "a directory with exactly the free space of the failed attempt is skipped",
+			"a directory that reports exactly the free space of the attempt that just failed is tried again: the other sub-directories of the full root report that very value, the attempt fails on its first chunk, Set closes the partially written file of the previous attempt, and the continuation on a root that does have room fails with 'file already closed'")
+	}
+	if !found {
+		r.Undecided(rule, cons, p.pos(fi.Decl), "no guard comparing a directory's free space with the failed attempt's was found")
+	}
+}
+
+// c10FreshMeasurements (seeded C10-E, C08-E): answers that steer a decision must be computed from the current
+// state, not replayed from a field that caches an earlier computation. Checked for the free space reported by
+// repository/dir.Get (must come from disk.Usage in this call) and for transaction.Repo.Oldest (must come from
+// the ordered map in this call). A cached value whose validity is decided by a clock is reported as a
+// violation (age says nothing about the writes made meanwhile); an event-invalidated cache is undecided.
+func c10FreshMeasurements(p *Prog, r *Report, rule, which string) {
+	type target struct {
+		key, what, consequence string
+		source                 func(fi *FuncInfo, c *ast.CallExpr) bool
+		value                  func(f *Flat, fi *FuncInfo) []struct {
+			node int
+			e    ast.Expr
+		}
+	}
+	var t target
+	switch which {
+	case "free":
+		t = target{key: "(*internal/repository/dir.Repo).Get", what: "the free space of a root", consequence: "a root that has just been filled is still listed with its old free space: the write starts there, fails, and every root whose (equally stale) value is not larger is skipped - Set reports ErrNoFreeSpace although another root has room",
+			source: func(fi *FuncInfo, c *ast.CallExpr) bool { return p.callIs(fi.Pkg, c, "internal/utils/disk.Usage") }}
+		t.value = func(f *Flat, fi *FuncInfo) (res []struct {
+			node int
+			e    ast.Expr
+		}) {
+			for _, n := range f.Nodes {
+				if as, ok := n.Ast.(*ast.AssignStmt); ok && len(as.Lhs) == len(as.Rhs) {
+					for i, l := range as.Lhs {
+						if sel, ok := ast.Unparen(l).(*ast.SelectorExpr); ok && sel.Sel.Name == "Free" {
+							res = append(res, struct {
+								node int
+								e    ast.Expr
+							}{n.ID, as.Rhs[i]})
+						}
+					}
+				}
+			}
+			return
+		}
+	case "oldest":
+		t = target{key: kTxRepoOldest, what: "the oldest registered transaction", consequence: "the collector takes its horizon from a remembered transaction instead of the head of the registry: when the remembered one is younger than an open transaction, versions that transaction still reads are removed",
+			source: func(fi *FuncInfo, c *ast.CallExpr) bool {
+				sel, ok := ast.Unparen(c.Fun).(*ast.SelectorExpr)
+				return ok && (sel.Sel.Name == "Iter" || sel.Sel.Name == "Val" || sel.Sel.Name == "Next")
+			}}
+		t.value = func(f *Flat, fi *FuncInfo) (res []struct {
+			node int
+			e    ast.Expr
+		}) {
+			info := fi.Pkg.TypesInfo
+			for _, id := range f.ReturnNodes() {
+				if rs := f.returnStmt(id); rs != nil && len(rs.Results) == 2 && isNilIdent(info, rs.Results[1]) {
+					res = append(res, struct {
+						node int
+						e    ast.Expr
+					}{id, rs.Results[0]})
+				}
+			}
+			return
+		}
+	}
+	fi := p.Func(t.key)
+	if fi == nil {
+		r.Undecided(rule, t.key, "", "not found")
+		return
+	}
+	info := fi.Pkg.TypesInfo
+	f := p.FlatInl(fi)
+	recv := paramObjs(fi)[-1]
+	// does the expression (through reaching definitions of the variables it mentions) come from a field of the receiver?
+	var fromField func(node int, e ast.Expr, depth int, seen map[types.Object]bool) (string, bool)
+	fromField = func(node int, e ast.Expr, depth int, seen map[types.Object]bool) (string, bool) {
+		if depth > 5 {
+			return "", false
+		}
+		field, sourced := "", false
+		ast.Inspect(e, func(x ast.Node) bool {
+			switch y := x.(type) {
+			case *ast.CallExpr:
+				if t.source(fi, y) {
+					sourced = true
+					return false
+				}
+			case *ast.SelectorExpr:
+				if fv, ok := info.Uses[y.Sel].(*types.Var); ok && fv.IsField() && recv != nil && f.CanonObj(objOf(info, y.X)) == recv {
+					if !isSyncPrimitive(fv.Type()) && fv.Name() != "storage" && fv.Name() != "roots" && fv.Name() != "dirs" && fv.Name() != "counts" {
+						field = fv.Name()
+					}
+				}
+			case *ast.Ident:
+				o := objOf(info, y)
+				if v, ok := o.(*types.Var); ok && !v.IsField() && !seen[o] && o != recv {
+					seen[o] = true
+					for _, d := range f.ReachingDefs(node, o) {
+						if d.Rhs != nil {
+							if fl, _ := fromField(d.Node, d.Rhs, depth+1, seen); fl != "" {
+								field = fl
+							}
+						}
+					}
+					// element writes m[k] = v count as definitions of m
+					for _, gn := range f.Nodes {
+						if as, ok := gn.Ast.(*ast.AssignStmt); ok && len(as.Lhs) == len(as.Rhs) {
+							for i, l := range as.Lhs {
+								if ix, ok := ast.Unparen(l).(*ast.IndexExpr); ok && objOf(info, ix.X) == o {
+									if fl, _ := fromField(gn.ID, as.Rhs[i], depth+1, seen); fl != "" {
+										field = fl
+									}
+								}
+							}
+						}
+					}
+				}
+			}
+			return true
+		})
+		return field, sourced
+	}
+	vals := t.value(f, fi)
+	cons := t.key + "#computed-in-this-call"
+	if len(vals) == 0 {
+		r.Undecided(rule, cons, p.pos(fi.Decl), "the place where "+t.what+" is produced was not found")
+		return
+	}
+	cached := ""
+	for _, v := range vals {
+		if fl, _ := fromField(v.node, v.e, 0, map[types.Object]bool{}); fl != "" {
+			cached = fl
+		}
+	}
+	if cached == "" {
+		r.Hold(rule, cons, p.pos(fi.Decl), t.what+" is computed from the current state on every call")
+		return
+	}
+	// validity decided by a clock?
+	byClock := false
+	for _, n := range f.Nodes {
+		if n.IsCond {
+			for _, c := range callsIn(n.Ast, false) {
+				if isFunc(info, c, "time", "Since") || isFunc(info, c, "time", "Now") || isFunc(info, c, "time", "Until") {
+					byClock = true
+				}
+				if sel, ok := c.Fun.(*ast.SelectorExpr); ok && (sel.Sel.Name == "After" || sel.Sel.Name == "Before" || sel.Sel.Name == "Sub") {
+					if tv, ok := info.Types[sel.X]; ok && strings.HasSuffix(tv.Type.String(), "time.Time") {
+						byClock = true
+					}
+				}
+			}
+		}
+	}
+	if byClock {
+		r.Viol(rule, cons, p.pos(fi.Decl), t.what+" is replayed from the field "+cached+" while it is young enough: the age of a measurement says nothing about the writes made since; "+t.consequence)
+		return
+	}
+	r.Undecided(rule, cons, p.pos(fi.Decl), t.what+" can be answered from the field "+cached+" instead of the current state: whether every mutation keeps that field current is beyond this rule ("+t.consequence+")")
+}
